@@ -215,7 +215,22 @@ fn ss_udp_session<W: Write>(r: &mut Rec<W>, c: Cipher, users: usize, rng: &mut S
     let (key, _) = if c.is_2022() { rc::keys_2022(&cp) } else { (rc::evp_bytes_to_key(cp.as_bytes(), c.key_len()), vec![]) };
     let header_key = if c.is_2022() && users > 0 { rc::keys_2022(&cp).1[0].clone() } else { key.clone() };
     let mut csid = 0u64;
+    let reply_ssid: u64 = rng.random();
+    let mut replies_fed = 0u64;
     for i in 0..n {
+        // Replies arrive while the client keeps sending, and fewer of them than it has sent (unanswered datagrams, two
+        // requests in flight): the server's packet ids run behind the client's.  What the client reads must not touch
+        // the counter it writes with.
+        if c.is_2022() && sid_logged && i % 2 == 0 {
+            use tokio_util::codec::Decoder;
+            let user = if users > 0 { Some(0) } else { None };
+            replies_fed += 1;
+            let reply = ssudp::server_encode(c, &sp, &us, user, (csid, reply_ssid, replies_fed), &addr.to_octo(), b"reply while sending")?;
+            match crate::util::catch(|| client.decode(&mut BytesMut::from(&reply[..]))) {
+                Ok(Ok(Some(_))) => {}
+                other => return Err(format!("the real client refuses a reply of its own session made by the real server codec ({}): {:?}", c.name(), other.map(|r| r.map(|o| o.is_some()).map_err(|e| e.to_string())))),
+            }
+        }
         let mut w = BytesMut::new();
         let payload = vec![0x45u8; [0usize, 1, 100, 1400, 8000][rng.random_range(0..5)]];
         client.encode((BytesMut::from(&payload[..]), addr.to_octo()), &mut w).map_err(|e| e.to_string())?;
